@@ -1559,10 +1559,36 @@ var rRegistryKey = &Rule{
 							if x.Index == 0 {
 								return "the key is the original type name returned by getTypeDetails"
 							}
+							return "?"
+						}
+						// a result of a same-package helper: what the helper returns at that position
+						if call, ok := x.Tuple.(*ssa.Call); ok {
+							if h := sx.Callee(call); h != nil && h.Blocks != nil && h.Pkg == fn.Pkg && d < 6 {
+								for _, ret := range sx.Returns(h) {
+									if x.Index >= len(ret.Results) {
+										return "?"
+									}
+									if rr := verdict(ret.Results[x.Index], d+2); rr != "" {
+										return rr
+									}
+								}
+								return ""
+							}
 						}
 						return "?"
 					case *ssa.Call:
 						if f := sx.Callee(x); f != nil && (f.Name() == "GetTypeKey" || f.Name() == "getFullTypeName" || f.Name() == "makeTypeKey") {
+							return ""
+						}
+						if h := sx.Callee(x); h != nil && h.Blocks != nil && h.Pkg == fn.Pkg && d < 6 {
+							for _, ret := range sx.Returns(h) {
+								if len(ret.Results) != 1 {
+									return "?"
+								}
+								if rr := verdict(ret.Results[0], d+2); rr != "" {
+									return rr
+								}
+							}
 							return ""
 						}
 						return "?"
@@ -1995,20 +2021,71 @@ var rGenericPath = &Rule{
 					return
 				}
 				n++
-				okv := false
 				why := describeVal(st.Val)
-				switch x := st.Val.(type) {
-				case *ssa.Extract:
-					if call, isCall := x.Tuple.(*ssa.Call); isCall && sx.Callee(call) == nil && !call.Call.IsInvoke() && x.Index == 1 {
-						okv = true // registered encoder's details
+				// untransformed: the registered encoder's second result, err.SafeDetails() itself, nil, a phi of such, or
+				// the corresponding result of a same-package helper every return of which yields such a value
+				var untransformed func(v ssa.Value, d int) bool
+				untransformed = func(v ssa.Value, d int) bool {
+					if d > 6 {
+						return false
 					}
-				case *ssa.Call:
-					if x.Call.IsInvoke() && x.Call.Method.Name() == "SafeDetails" && len(x.Call.Args) == 0 {
-						okv = true
-					} else if f := sx.Callee(x); f != nil {
-						why = "result of " + load.FnName(f)
+					helperResult := func(call *ssa.Call, idx int) bool {
+						h := sx.Callee(call)
+						if h == nil || h.Blocks == nil || h.Pkg != fn.Pkg {
+							if h != nil {
+								why = "result of " + load.FnName(h)
+							}
+							return false
+						}
+						rets := sx.Returns(h)
+						for _, ret := range rets {
+							if idx >= len(ret.Results) || !untransformed(ret.Results[idx], d+1) {
+								why = "result of " + load.FnName(h)
+								return false
+							}
+						}
+						return len(rets) > 0
 					}
+					switch x := v.(type) {
+					case *ssa.Const:
+						return x.IsNil()
+					case *ssa.Phi:
+						for _, e := range x.Edges {
+							if !untransformed(e, d+1) {
+								return false
+							}
+						}
+						return true
+					case *ssa.UnOp:
+						// a named result / local: what was stored into it
+						if al, isAl := x.X.(*ssa.Alloc); isAl && x.Op == token.MUL {
+							nst := 0
+							for _, r := range *al.Referrers() {
+								if st2, isSt := r.(*ssa.Store); isSt && st2.Addr == ssa.Value(al) {
+									nst++
+									if !untransformed(st2.Val, d+1) {
+										return false
+									}
+								}
+							}
+							return nst > 0
+						}
+					case *ssa.Extract:
+						if call, isCall := x.Tuple.(*ssa.Call); isCall {
+							if sx.Callee(call) == nil && !call.Call.IsInvoke() {
+								return x.Index == 1 // registered encoder's details
+							}
+							return helperResult(call, x.Index)
+						}
+					case *ssa.Call:
+						if x.Call.IsInvoke() {
+							return x.Call.Method.Name() == "SafeDetails" && len(x.Call.Args) == 0
+						}
+						return helperResult(x, 0)
+					}
+					return false
 				}
+				okv := untransformed(st.Val, 0)
 				c.Check(okv, "errbase."+name+": outgoing ReportablePayload", st.Pos(), "the registered encoder's details or err.SafeDetails() itself",
 					"the safe details put on the wire are a transformed copy ("+why+") of what the error reports: decoders rebuild annotations from these strings, so the annotation differs after a hop")
 			})
